@@ -87,6 +87,8 @@ def scalar_family():
     fam.append(('paths-attr', {'classes': BASE + [_K([('p', 'path'), ('l', ('list', 'path'), None), ('d', ('dict', 'str', 'path'), None)])],
                                'root': ('cls', 'K')},
                 lambda b: [b.classes['K'](p, [_copy(p), pathlib.Path('x')], {'k': _copy(p)}) for p in values.PATHS]))
+    fam.append(('datetime-offset-seconds', {'classes': BASE + [_K([('d', 'date'), ('n', 'int', 0)])], 'root': ('list', ('union', ['date', ('cls', 'K')]))},
+                lambda b: [[values.DATETIME_OFFSET_SECONDS], [b.classes['K'](values.DATETIME_OFFSET_SECONDS)]]))
     fam.append(('enums', {'classes': BASE, 'root': ('cls', 'E')}, lambda b: list(b.classes['E'])))
     for mix in ('str', 'int'):
         em = {'name': 'Em', 'kind': 'enum', 'mixin': mix, 'members': ['high', 'low', 'true', 'a_b']}
